@@ -579,6 +579,7 @@ fn check_on_contents(t: &LspTrace, model: &Model, seed: u64) -> Result<(bool, Ve
         std::fs::write(chk.join(name), text).map_err(|e| e.to_string())?;
     }
     let hooks = SimHooks::new(root(), mix(&[seed, 78]), vec![]);
+    crate::seam::capture_begin();
     let args = vec![chk.clone()];
     let res = run_simulated_process(seed, Some(hooks.clone()), move || ironplcc::cli::check(&args, false));
     let log = hooks.take_log();
@@ -586,7 +587,7 @@ fn check_on_contents(t: &LspTrace, model: &Model, seed: u64) -> Result<(bool, Ve
     let mut diags = vec![];
     for (with_project, records) in &log.diag_calls {
         for r in records {
-            let conv = |l: &ironplcc::verif::LabelRecord| crate::world::LabelRec { file: l.file.clone(), start: l.start, end: l.end, text_len: l.text_len, on_char_boundary: l.on_char_boundary };
+            let conv = |l: &ironplcc::verif::LabelRecord| crate::world::LabelRec { file: l.file.clone(), start: l.start, end: l.end, message: l.message.clone(), text_len: l.text_len, on_char_boundary: l.on_char_boundary };
             diags.push(DiagRec { code: r.code.clone(), primary: conv(&r.primary), secondary: r.secondary.iter().map(conv).collect(), with_project: *with_project });
         }
     }
